@@ -588,6 +588,12 @@ static void item_body(qitem *it) {
 		break;
 	default: break;
 	}
+	// an item that runs on the main thread inside the main queue's drain may spin a nested run loop, which calls the
+	// drain hook again: that call has to come back without running anything (the item is still in progress)
+	if (G->use_main && !G->dispatch_main && sim_self_id() == 0 && ((uint64_t)it->id * 2654435761u + RC.seed) % 4 == 0) {
+		h_log("item %d pumps a nested run loop turn", it->id);
+		_dispatch_main_queue_callback_4CF(NULL);
+	}
 	sim_point();
 	item_end(it);
 }
